@@ -45,6 +45,25 @@ func fsutilGoroutines() (int, string) {
 	return cnt, sample
 }
 
+// fsutilStacks returns the stacks of the goroutines that have an fsutil frame (bounded), for a call that never returned.
+func fsutilStacks() string {
+	buf := make([]byte, 1<<20)
+	n := runtime.Stack(buf, true)
+	out := ""
+	for _, st := range strings.Split(string(buf[:n]), "\n\n") {
+		if strings.Contains(st, "github.com/tonistiigi/fsutil") && !strings.Contains(st, "main.fsutilStacks") {
+			if len(st) > 1500 {
+				st = st[:1500]
+			}
+			out += st + "\n\n"
+		}
+	}
+	if len(out) > 12000 {
+		out = out[:12000]
+	}
+	return out
+}
+
 // waitQuiesce polls until no goroutine with an fsutil frame is left (or the grace period is over).
 func waitQuiesce(grace time.Duration) (int, string) {
 	deadline := time.Now().Add(grace)
